@@ -92,5 +92,66 @@ func init() {
 				return "err"
 			}
 			return fmt.Sprintf("ok %d", int(t))
+		},
+		// the type the schema merge assigns to `l op r` is the type of the value the evaluator computes for
+		// it on ordinary (non-zero) operands of those types: whatever EvalType says must be borne out by Eval
+		// (round-5 seeded change C12-1: EvalType runs the evaluator on zero values, and a tidy-up of the
+		// division-by-zero branch changed the type of integer / integer columns of subqueries)
+		prop: func(args []string) string {
+			op, _ := decInt(args[0])
+			if args[1] == "X" || args[2] == "X" || args[1] == "D" || args[2] == "D" {
+				return "skip" // nil and duration literals do not come from a schema
+			}
+			tm := fixedTypeMapper{}
+			e := &influxql.BinaryExpr{Op: influxql.Token(op), LHS: evalOperand(args[1], "l", tm), RHS: evalOperand(args[2], "r", tm)}
+			v := influxql.TypeValuerEval{TypeMapper: tm, Sources: influxql.Sources{&influxql.Measurement{Name: "m"}}}
+			t, err := v.EvalType(e)
+			if err != nil {
+				return "skip"
+			}
+			sample := func(dt influxql.DataType, k int) (interface{}, bool) {
+				switch dt {
+				case influxql.Float:
+					return float64(6 / k), true
+				case influxql.Integer:
+					return int64(6 / k), true
+				case influxql.Unsigned:
+					return uint64(6 / k), true
+				case influxql.String:
+					return "x", true
+				case influxql.Boolean:
+					return k == 1, true
+				}
+				return nil, false
+			}
+			m := map[string]interface{}{}
+			for i, name := range []string{"l", "r"} {
+				if dt, isRef := tm[name]; isRef {
+					val, ok := sample(dt, i+1)
+					if !ok {
+						return "skip"
+					}
+					m[name] = val
+				}
+			}
+			var want influxql.DataType
+			switch influxql.Eval(e, m).(type) {
+			case float64:
+				want = influxql.Float
+			case int64:
+				want = influxql.Integer
+			case uint64:
+				want = influxql.Unsigned
+			case string:
+				want = influxql.String
+			case bool:
+				want = influxql.Boolean
+			default:
+				return "skip"
+			}
+			if t != want {
+				return fmt.Sprintf("EvalType(%s) = %s, but the evaluator computes a %s for operands of these types", e.String(), t, want)
+			}
+			return ""
 		}})
 }
